@@ -526,21 +526,15 @@ func (g *c08Gen) loosen(d c08Doc, long bool) c08Doc {
 				continue
 			}
 			var b strings.Builder
-			quote := byte(0)
 			v := kv.Value
+			prot := c08Protected(v)
 			for i := 0; i < len(v); i++ {
 				ch := v[i]
-				if quote != 0 {
+				if prot[i] {
 					b.WriteByte(ch)
-					if ch == quote {
-						quote = 0
-					}
 					continue
 				}
 				switch {
-				case ch == '\'' || ch == '"':
-					quote = ch
-					b.WriteByte(ch)
 				case ch == ' ' && i > 0 && i+1 < len(v):
 					b.WriteByte(' ')
 					if r.Intn(3) == 0 {
@@ -579,15 +573,9 @@ func (g *c08Gen) loosen(d c08Doc, long bool) c08Doc {
 		p := ms[r.Intn(len(ms))]
 		v := out[p.s].Defs[p.k].Value
 		var at []int
-		quote := byte(0)
+		prot := c08Protected(v)
 		for i := 1; i+1 < len(v); i++ {
-			if quote != 0 {
-				if v[i] == quote {
-					quote = 0
-				}
-			} else if v[i] == '\'' || v[i] == '"' {
-				quote = v[i]
-			} else if v[i] == ' ' {
+			if !prot[i] && v[i] == ' ' {
 				at = append(at, i)
 			}
 		}
@@ -598,6 +586,38 @@ func (g *c08Gen) loosen(d c08Doc, long bool) c08Doc {
 		}
 	}
 	return out
+}
+
+// c08Marker: enforcer.go initRmMap switches domain pattern matching on iff the matcher contains exactly
+// this text (after escaping), so its inner blank is significant to casbin (observation W1).
+const c08Marker = "keyMatch(r.dom, p.dom)"
+
+// c08Protected marks the bytes of v whose blanks mean something: quoted strings and the marker.
+func c08Protected(v string) []bool {
+	prot := make([]bool, len(v))
+	quote := byte(0)
+	for i := 0; i < len(v); i++ {
+		if quote != 0 {
+			prot[i] = true
+			if v[i] == quote {
+				quote = 0
+			}
+		} else if v[i] == '\'' || v[i] == '"' {
+			quote = v[i]
+			prot[i] = true
+		}
+	}
+	for from := 0; ; {
+		k := strings.Index(v[from:], c08Marker)
+		if k < 0 {
+			break
+		}
+		for j := from + k; j < from+k+len(c08Marker); j++ {
+			prot[j] = true
+		}
+		from += k + len(c08Marker)
+	}
+	return prot
 }
 
 func c08KindOf(section, key string) string {
@@ -1202,6 +1222,17 @@ func c08Probe(c *Ctx) {
 		c.Known = append(c.Known, "F34\treproduced\tcontinuation line ['data2', 'data3'] taken for a section header: m.Value = "+Q(v))
 	} else {
 		c.Known = append(c.Known, "F34\tgone\tm.Value = "+Q(v))
+	}
+	// W1 (observation outside the property's layouts): blanks inside the marker change decisions
+	if data, err := os.ReadFile(c08Examples + "/keymatch_with_rbac_in_domain.conf"); err == nil && strings.Contains(string(data), c08Marker) {
+		pol := c08Examples + "/keymatch_with_rbac_in_domain.csv"
+		m1, e1 := model.NewModelFromString(string(data))
+		m2, e2 := model.NewModelFromString(strings.Replace(string(data), c08Marker, "keyMatch(r.dom,p.dom)", 1))
+		if e1 == nil && e2 == nil {
+			reqs := c08Requests(m1, pol)
+			d1, d2 := c08Decisions(m1, pol, reqs), c08Decisions(m2, pol, reqs)
+			c.Notes = append(c.Notes, fmt.Sprintf("W1 observation: matcher spelled keyMatch(r.dom,p.dom) instead of %s: decisions differ=%v (enforcer.go initRmMap looks for the exact text); the loose stream keeps this text intact", c08Marker, d1 != d2))
+		}
 	}
 	// F35 (interpretation guard, not a finding): a blank or comment line inside a continued definition ends it
 	full2 := "g(r_sub, p_sub) && r_obj == p_obj && r_act == p_act"
